@@ -345,3 +345,126 @@ Print Assumptions C13_rate_relabel_noninjective_refuted.
 
 Example C13_ex_injective : forall f1 f2, injective (fun x => x + (f2 - f1)) /\ (fun x => x + (f2 - f1)) f1 = f2.
 Proof. exact injective_ex. Qed.
+
+(* ==================================================================================================
+   Extension 3: TRANSLATOR TIE (Edges/TiePrims.v, gen/EdgesGen.v, Edges/ProofsTie.v).
+   gen/EdgesGen.v is regenerated from psiaudio/pipeline.py on every run by translate/pyedges2coq.py: the coroutine
+   `edges` as gen_edges_setup (before the first receive) / gen_edges_start (first chunk) / gen_edges_step (one send),
+   and Events.get_range_samples / get_latest_samples; util.epochs / util.debounce_epochs inside the step are the
+   generated definitions of gen/RunsGen.v (C18).  The generated definitions EQUAL the model the theorems above are about. *)
+From PV Require Import Edges.TiePrims gen.EdgesGen Edges.ProofsTie.
+
+(* edges(min_samples, ..) raises exactly for min_samples < 1; the first chunk sets the state up as the model's `start`
+   (`rep`: a model state read as the locals prior_samples, s0, fs of the suspended coroutine) *)
+Theorem C13_source_start : forall m init fs c,
+  gen_edges_setup m = (if m <? 1 then None else Some tt) /\ gen_edges_start m init fs c = rep (start m init fs c).
+Proof. exact (fun m init fs c => conj (setup_tie m) (start_tie m init fs c)). Qed.
+Print Assumptions C13_source_start.
+
+(* generated step = model step: every chunk, every state in which annotated carried samples are exactly m >= 1 long
+   (wf_tie), every fuel above the length of the joined array (fuel: the while loops of util.smooth_epochs) *)
+Theorem C13_source_step : forall fuel d m st c, wf_tie m st -> (length (st_prior st ++ c_data c) < fuel)%nat ->
+  gen_edges_step fuel m d (rep st) c = option_map (fun r => (fst r, rep (snd r))) (step d m st c).
+Proof. exact step_tie. Qed.
+Print Assumptions C13_source_step.
+
+(* every reachable state satisfies the invariant: the first chunk establishes it (m >= 1), a step keeps it *)
+Theorem C13_source_invariant : forall d m init fs c st c' E st',
+  (1 <= m -> wf_full m (start m init fs c)) /\
+  (wf_full m st -> step d m st c' = Some (E, st') -> wf_full m st') /\
+  (wf_full m st -> wf_tie m st).
+Proof.
+  exact (fun d m init fs c st c' E st' =>
+           conj (wf_start m init fs c) (conj (wf_step d m st c' E st') (wf_full_tie m st))).
+Qed.
+Print Assumptions C13_source_invariant.
+
+(* both hypotheses are needed: an annotated state carrying fewer than m samples (the s0 PipelineData.__getitem__ gives
+   samples[..., -m:] is then not s0 + n); fuel not above the number of runs *)
+Theorem C13_source_step_refuted : exists fuel d m st c,
+  (length (st_prior st ++ c_data c) < fuel)%nat /\ ~ wf_tie m st /\
+  gen_edges_step fuel m d (rep st) c <> option_map (fun r => (fst r, rep (snd r))) (step d m st c).
+Proof. exact step_tie_refuted. Qed.
+Print Assumptions C13_source_step_refuted.
+
+Theorem C13_source_step_fuel_refuted : exists fuel d m st c,
+  wf_full m st /\ (length (st_prior st ++ c_data c) <= fuel + 1)%nat /\
+  gen_edges_step fuel m d (rep st) c <> option_map (fun r => (fst r, rep (snd r))) (step d m st c).
+Proof. exact step_tie_fuel_refuted. Qed.
+Print Assumptions C13_source_step_fuel_refuted.
+
+(* the whole coroutine - created, then sent any chunks whatsoever (source_run_edges: set-up, first chunk, one generated
+   step per send, an exception ends it) - hands its target exactly what the model says, errors included *)
+Theorem C13_source_run : forall fuel d m init fs_arg cs, (Z.to_nat m + length (stream cs) < fuel)%nat ->
+  source_run_edges fuel d m init fs_arg cs = run_edges d m init fs_arg cs.
+Proof. exact run_edges_tie. Qed.
+Print Assumptions C13_source_run.
+
+(* C13_blocks_tile, C13_all_chunkings, C13_step_characterisation over the GENERATED coroutine *)
+Theorem C13_source_blocks_tile : forall fuel d m init fs cs bs s, enough fuel m cs ->
+  source_run_edges fuel d m init fs cs = (bs, s) ->
+  map span bs = firstn (length bs) (spans (first_index cs - m) (map clen cs)) /\
+  (length bs <= length cs)%nat /\ (s = Ok -> length bs = length cs).
+Proof. exact source_blocks_tile. Qed.
+Print Assumptions C13_source_blocks_tile.
+
+Theorem C13_source_all_chunkings : forall fuel d m init fs_arg cs first, enough fuel m cs ->
+  1 <= m -> input_ok first cs -> clean m init (stream cs) = true ->
+  exists bs, source_run_edges fuel d m init fs_arg cs = (bs, Ok) /\
+    forall kk : nat,
+      concat (map evs (firstn kk bs)) =
+      filter (wanted d)
+        (filter (due_by m (first + zlen (stream (firstn kk cs)))) (transitions init first (stream cs))).
+Proof. exact source_all_chunkings. Qed.
+Print Assumptions C13_source_all_chunkings.
+
+(* chunk-invariance stated directly: two chunkings of one clean stream end with the same events *)
+Theorem C13_source_chunking_independent : forall fuel d m init fs_arg cs1 cs2 first,
+  enough fuel m cs1 -> enough fuel m cs2 -> 1 <= m -> input_ok first cs1 -> input_ok first cs2 ->
+  stream cs1 = stream cs2 -> clean m init (stream cs1) = true ->
+  exists bs1 bs2, source_run_edges fuel d m init fs_arg cs1 = (bs1, Ok) /\
+                  source_run_edges fuel d m init fs_arg cs2 = (bs2, Ok) /\
+                  concat (map evs bs1) = concat (map evs bs2).
+Proof. exact source_chunking_independent. Qed.
+Print Assumptions C13_source_chunking_independent.
+
+Theorem C13_source_step_characterisation : forall fuel d m st c, 1 <= m -> zlen (st_prior st) = m ->
+  (length (st_prior st ++ c_data c) < fuel)%nat ->
+  joinable st c = true -> wclean m (st_prior st ++ c_data c) ->
+  exists E st', gen_edges_step fuel m d (rep st) c = Some (E, rep st') /\
+    e_start E = st_s0 st /\ e_end E = st_s0 st + zlen (c_data c) /\ st_s0 st' = e_end E /\
+    zlen (st_prior st') = m /\ inc (evs E) /\
+    forall k a, In (k, a) (evs E) <->
+      wanted d (k, a) = true /\
+      exists p, a = p + st_s0 st /\ edge_at (st_prior st ++ c_data c) p k /\
+                (k = Rising -> p <= zlen (c_data c)) /\ (k = Falling -> m <= p).
+Proof. exact source_step_characterisation. Qed.
+Print Assumptions C13_source_step_characterisation.
+
+(* Events.get_range_samples / get_latest_samples as regenerated = the model, for every block and all bounds;
+   C13_range_query over the generated definition *)
+Theorem C13_source_range : forall E a b lb ub,
+  gen_get_range_samples E a b = get_range_samples E a b /\
+  gen_get_latest_samples E lb ub = get_latest_samples E lb ub /\ gen_get_latest_samples_default_ub = 0.
+Proof. exact (fun E a b lb ub => conj (range_tie E a b) (conj (latest_tie E lb ub) eq_refl)). Qed.
+Print Assumptions C13_source_range.
+
+Theorem C13_source_range_query : forall E a b,
+  match gen_get_range_samples E a b with
+  | Some R => e_start E <= a /\ b <= e_end E /\ e_start R = a /\ e_end R = b /\ e_fs R = e_fs E /\
+              evs R = filter (in_range a b) (evs E)
+  | None => a < e_start E \/ e_end E < b
+  end.
+Proof. exact source_range_query. Qed.
+Print Assumptions C13_source_range_query.
+
+(* non-vacuity: states satisfying the invariants; a run of the generated coroutine meeting all hypotheses *)
+Example C13_ex_source_wf :
+  wf_full 2 (start 2 false 1000 {| c_ann := Some (7, 1000); c_data := [true; true; true] |}) /\
+  wf_tie 2 (start 2 false 1000 {| c_ann := Some (7, 1000); c_data := [true; true; true] |}).
+Proof. exact tie_ex_wf. Qed.
+Example C13_ex_source_run :
+  let cs := [plain [false; true]; plain [true; true; false]; plain []; plain [false; false; true; true]] in
+  enough 12 2 cs /\ input_ok 0 cs /\ clean 2 false (stream cs) = true /\
+  concat (map evs (fst (source_run_edges 12 DBoth 2 false 1000 cs))) = [(Rising, 1); (Falling, 4); (Rising, 7)].
+Proof. exact tie_ex_run. Qed.
